@@ -62,6 +62,10 @@ var fixed = []sample{
 	{"text/html", "<script>var a = ;</script><p>x"},
 	{"text/css", ""},
 	{"application/json", ""},
+	// documents whose output is empty: the only write is the final probe w.Write(nil)
+	{"application/javascript", ""}, {"application/javascript", ";"}, {"application/javascript", "// c\n{}"},
+	{"text/html", ""}, {"text/html", "<!-- c -->"}, {"text/xml", ""}, {"text/xml", "<!-- c -->"},
+	{"image/svg+xml", ""}, {"image/svg+xml", "<!-- c -->"}, {"text/css", "/* c */"}, {"application/json", " "},
 	{"text/css;inline=1", "color : #ff0000 ; margin : 0px 0px"},
 	{"image/svg+xml;inline=1", "<svg><path d=\"M 10 10 L 20 20 z\"/></svg>"},
 }
@@ -563,7 +567,9 @@ func runFault(m *minify.M, s sample, r *vh.Rand) {
 			viol("fault:writer-failure-blocks", s, "", "", "", opts)
 			continue
 		}
-		if k <= ncalls && (err == nil || (p.err == nil && !errors.Is(err, we))) {
+		// (a writer that fails from its FIRST call on must always be noticed: every minifier ends with a write, if only the
+		// empty probe w.Write(nil), also when the output is empty)
+		if (k <= ncalls || k == 1) && (err == nil || (p.err == nil && !errors.Is(err, we))) {
 			viol("fault:writer-error-not-returned", s, "plain Minify", errStr(err), "E999", opts)
 		}
 		if k > ncalls && errStr(err) != errStr(p.err) {
@@ -593,7 +599,7 @@ func runFault(m *minify.M, s sample, r *vh.Rand) {
 		res.Evaluations++
 		if !ok {
 			viol("fault:writer-wrapper-close-blocks", s, "", "", "", opts)
-		} else if k <= ncalls && ((cerr == nil && werr == nil) || (p.err == nil && !errors.Is(cerr, we) && !errors.Is(werr, we))) {
+		} else if (k <= ncalls || k == 1) && ((cerr == nil && werr == nil) || (p.err == nil && !errors.Is(cerr, we) && !errors.Is(werr, we))) {
 			viol("fault:writer-error-not-returned", s, "Writer wrapper", errStr(cerr), "E999", opts)
 		}
 	}
